@@ -57,12 +57,17 @@ IO_DOC = dict(read_count="syscr", write_count="syscw", read_bytes="read_bytes", 
               read_chars="rchar", write_chars="wchar")
 IO_KEYS = ["rchar", "wchar", "syscr", "syscw", "read_bytes", "write_bytes", "cancelled_write_bytes"]
 
-REG_NAMES = ["reg0", "reg 1 with space", "rég2.txt", "reg3:colon", "nl\nfile", "trail "]
+REG_NAMES = ["reg0", "reg 1 with space", "rég2.txt", "reg3:colon", "nl\nfile", "trail ",
+             # names that end in letters of the marker " (deleted)" itself
+             "state", "table", "cache.dat", "(led)"]
+# a regular file that lives under /dev (POSIX shared memory, /dev/mqueue): the *file type* decides, not the directory
+DEV_SHM_FILE = "/dev/shm/verif_c14_%d" % os.getpid()
 # kind -> (target template, class); $T = the worker's temp dir.  MUST = has to be listed, MAY, NOT
 KINDS = {
     "reg":               (None, "MUST"),
     "deleted_literal":   ("$T/lit (deleted)", "MUST"),      # a real file literally named so
     "deleted_recreated": ("$T/reg0 (deleted)", "MAY"),      # only $T/reg0 exists
+    "reg_under_dev":     ("$SHM", "MUST"),
     "deleted_gone":      ("$T/gone0 (deleted)", "NOT"),
     "deleted_dir":       ("$T/dir0 (deleted)", "NOT"),
     "memfd":             ("/memfd:buf (deleted)", "NOT"),
@@ -86,8 +91,8 @@ KINDS = {
     "symlink_loop":      ("$T/loop/x", "NOT"),              # ELOOP
     "name_too_long":     ("$T/" + "n" * 300, "NOT"),        # ENAMETOOLONG
 }
-FILE_KINDS = ("reg", "deleted_literal", "deleted_recreated")
-KIND_WEIGHTS = (["reg"] * 10 + ["deleted_literal"] * 2 + ["deleted_recreated"] * 2 + ["pipe"] * 3 + ["socket"] * 3
+FILE_KINDS = ("reg", "deleted_literal", "deleted_recreated", "reg_under_dev")
+KIND_WEIGHTS = (["reg"] * 10 + ["reg_under_dev"] * 1 + ["deleted_literal"] * 2 + ["deleted_recreated"] * 2 + ["pipe"] * 3 + ["socket"] * 3
                 + [k for k in KINDS if k not in ("reg", "pipe", "socket")])
 
 IO_BENIGN = [b"\n", b"   \n", b"\t\n", b"garbage\n", b"key:value\n", b"key value\n", b"a: b: c\n", b"x: \n",
@@ -165,6 +170,9 @@ def gen_case(rng):
         tmpl = KINDS[kind][0]
         if kind == "reg":
             target = "$T/" + rng.choice(REG_NAMES)
+        elif kind == "deleted_recreated":
+            # replaced on disk while the descriptor stays open (atomic save, log rotation): whatever the file is called
+            target = "$T/" + rng.choice(REG_NAMES) + " (deleted)"
         elif "%d" in tmpl:
             target = tmpl % rng.randrange(1, 10**7)
         else:
@@ -264,6 +272,12 @@ def setup():
     for name in REG_NAMES + ["lit (deleted)"]:
         with vkernel.real_open(os.path.join(tmp, name), "wb") as f:
             f.write(b"x" * 10)
+    try:
+        with vkernel.real_open(DEV_SHM_FILE, "wb") as f:
+            f.write(b"x" * 10)
+        atexit.register(lambda: os.path.exists(DEV_SHM_FILE) and os.unlink(DEV_SHM_FILE))
+    except OSError:
+        KINDS["reg_under_dev"] = ("$SHM", "NOT")       # no /dev/shm here: the name does not exist, so it is not a file
     os.mkdir(os.path.join(tmp, "dir0"))
     os.mkfifo(os.path.join(tmp, "fifo0"))
     os.symlink("loop", os.path.join(tmp, "loop"))
@@ -296,6 +310,8 @@ def _run_case(case, acc):
     entries = {e["fd"]: e for e in case["fds"]}
 
     def resolve(target):
+        if target == "$SHM":
+            return DEV_SHM_FILE
         return target.replace("$T", tmp) if target.startswith("$T") else target
 
     p.fds = {}
@@ -447,6 +463,18 @@ def _run_case(case, acc):
     if moved:
         ps.PROCFS_PATH = "/vproc"
         viols = [(m + ":procfs_path_moved_after_construction", d) for m, d in viols]
+    # descriptors of one and the same kind are treated alike, however the file happens to be called
+    if rows is not None:
+        listed = {r.fd for r in rows}
+        same = [e for e in case["fds"] if e["kind"] == "deleted_recreated" and not (e.get("gone") or e.get("info_gone") or e["fd"] in closed)]
+        if len({e["target"] for e in same}) > 1:
+            acc.count("tables_with_several_replaced_files")
+            inn = sorted(e["target"] for e in same if e["fd"] in listed)
+            out_ = sorted(e["target"] for e in same if e["fd"] not in listed)
+            if inn and out_:
+                viols.append(("open_files_treats_replaced_files_unequally",
+                              f"descriptors on files that were replaced on disk (target '<existing file> (deleted)'): listed for "
+                              f"{inn}, left out for {out_}"))
     # ---- the same static table through the other call paths (oneshot block, as_dict) ---------------------
     if not midscan:
         def call(fn):
